@@ -78,7 +78,7 @@ def corr_network(ctx, spec, T, seeds, safe=False):
 
 def cme_test(ctx, spec, times, nruns, seed0, offset=False, sim_kind="ssa", strided=False):
     """G-test of N seeded runs against p0*expm(Q t) at each time and jointly at the first two."""
-    from bioscrape.simulator import ModelCSimInterface, SSASimulator, VolumeSSASimulator
+    from bioscrape.simulator import ModelCSimInterface, SafeModelCSimInterface, SSASimulator, VolumeSSASimulator
     from bioscrape.types import Volume
     from bioscrape.random import py_seed_random
     ctx.begin_case({"cme": spec, "times": list(times), "nruns": nruns, "seed0": seed0, "offset": offset, "simulator": sim_kind, "strided": strided})
@@ -93,17 +93,22 @@ def cme_test(ctx, spec, times, nruns, seed0, offset=False, sim_kind="ssa", strid
     if strided:
         T = np.repeat(T, 2)[::2]        # the same times as a non-contiguous view of a longer buffer
     sim = SSASimulator()
-    if sim_kind == "volume":
+    if sim_kind == "safevolume":
+        # the safe interface computes the same rates for mass action at non-negative counts (its guard only zeroes what is zero)
+        Isafe = SafeModelCSimInterface(M)
+    if sim_kind in ("volume", "safevolume"):
         # the volume-aware simulator at constant volume 1 samples the same master equation; its volume ticks (every dt = 1)
         # are coarser than the requested grid, so one step can pass several requested times
         I.py_set_dt(1.0)
+        if sim_kind == "safevolume":
+            Isafe.py_set_dt(1.0)
         sim = VolumeSSASimulator()
     samples = []
     for i in range(nruns):
         py_seed_random(seed0 + i)
-        if sim_kind == "volume":
+        if sim_kind in ("volume", "safevolume"):
             v = Volume(); v.py_set_volume(1.0)
-            res = sim.py_volume_simulate(I, v, T)
+            res = sim.py_volume_simulate(Isafe if sim_kind == "safevolume" else I, v, T)
         else:
             res = sim.py_simulate(I, T)
         samples.append(tuple(map(tuple, np.array(res.py_get_result())[(0 if offset else 1):].astype(int))))
@@ -153,6 +158,7 @@ def run(ctx):
         cme_test(ctx, spec, [0.3, 1.0, 2.5], nruns, 1000 * ctx.seed + 17 * k + 1, strided=bool(k % 2))
     cme_test(ctx, FINITE[0], [0.75, 1.25, 2.5], nruns, 1000 * ctx.seed + 777, offset=True)
     cme_test(ctx, FINITE[1], [0.1, 0.3, 0.6, 1.0, 2.5], nruns, 1000 * ctx.seed + 555, sim_kind="volume")
+    cme_test(ctx, FINITE[1], [0.3, 1.0, 2.5], nruns, 1000 * ctx.seed + 666, sim_kind="safevolume")
     cme_test(ctx, FINITE_SLOW, [2e8, 1e9, 2e9], nruns, 1000 * ctx.seed + 222)
     cme_test(ctx, FINITE_DELAYED, [0.3, 1.0, 2.5], nruns, 1000 * ctx.seed + 333)
     cme_test(ctx, FINITE_DELAYED, [0.3, 1.0, 2.5], nruns, 1000 * ctx.seed + 444, sim_kind="volume", strided=True)
